@@ -464,7 +464,7 @@ func init() {
 			return nil, true
 		}
 		cond := ex.tb.Restrict(c.args[0].(*Term), c.st.ctx)
-		o := &Obligation{Kind: "assert", Label: label, G: c.st.G, Cond: cond, NAssume: len(ex.assumes), Pos: ex.posString(c.pos)}
+		o := &Obligation{Kind: "assert", Label: label, G: ex.full(c.st.G), Cond: cond, NAssume: len(ex.assumes), Pos: ex.posString(c.pos)}
 		o.KF = append(o.KF, ex.activeKF...)
 		o.KF = append(o.KF, ex.pendingKF...)
 		ex.pendingKF = nil
@@ -477,7 +477,7 @@ func init() {
 	}
 	h["vCover"] = func(ex *Exec, c *callCtx) (Value, bool) {
 		label := c.args[0].(*StrV).S
-		o := &Obligation{Kind: "cover", Label: label, G: c.st.G, Cond: ex.tb.True, NAssume: len(ex.assumes), Pos: ex.posString(c.pos)}
+		o := &Obligation{Kind: "cover", Label: label, G: ex.full(c.st.G), Cond: ex.tb.True, NAssume: len(ex.assumes), Pos: ex.posString(c.pos)}
 		ex.Obligations = append(ex.Obligations, o)
 		return nil, true
 	}
@@ -486,7 +486,7 @@ func init() {
 		if !ex.KnownIDs[id] {
 			return nil, true
 		}
-		ex.pendingKF = append(ex.pendingKF, KFPred{ID: id, Pred: ex.tb.And(c.st.G, c.args[1].(*Term))})
+		ex.pendingKF = append(ex.pendingKF, KFPred{ID: id, Pred: ex.tb.And(ex.full(c.st.G), c.args[1].(*Term))})
 		return nil, true
 	}
 	h["vFindingAll"] = func(ex *Exec, c *callCtx) (Value, bool) {
@@ -494,7 +494,7 @@ func init() {
 		if !ex.KnownIDs[id] {
 			return nil, true
 		}
-		ex.activeKF = append(ex.activeKF, KFPred{ID: id, Pred: ex.tb.And(c.st.G, c.args[1].(*Term))})
+		ex.activeKF = append(ex.activeKF, KFPred{ID: id, Pred: ex.tb.And(ex.full(c.st.G), c.args[1].(*Term))})
 		return nil, true
 	}
 	h["vParam"] = func(ex *Exec, c *callCtx) (Value, bool) {
@@ -508,7 +508,7 @@ func init() {
 	obs := func(signed bool) intrinsic {
 		return func(ex *Exec, c *callCtx) (Value, bool) {
 			label := c.args[0].(*StrV).S
-			ex.Observes = append(ex.Observes, Observation{Label: label, G: c.st.G, Val: c.args[1], Signed: signed})
+			ex.Observes = append(ex.Observes, Observation{Label: label, G: ex.full(c.st.G), Val: c.args[1], Signed: signed})
 			return nil, true
 		}
 	}
